@@ -18,6 +18,13 @@ type GCrypto struct {
 	Lifetime string // seconds
 }
 
+// GDyn is a dynamic crypto map entry (peer known by certificate name).
+type GDyn struct {
+	Seq  int
+	Name string
+	ACL  *GACL
+}
+
 type GTunnelIP struct {
 	IP    string
 	Attrs []string // ipsec-attributes
@@ -49,6 +56,7 @@ type GVPN struct {
 	MapName string
 	Intf    string
 	Entries []*GCrypto
+	Dyn     []*GDyn
 	Tunnels []*GTunnelIP
 	RA      []*GRemoteAccess
 	Users   []*GUser
@@ -71,6 +79,9 @@ func (v *GVPN) clone() *GVPN {
 		c := *e
 		c.ACL = cloneACL(e.ACL)
 		n.Entries = append(n.Entries, &c)
+	}
+	for _, dy := range v.Dyn {
+		n.Dyn = append(n.Dyn, &GDyn{dy.Seq, dy.Name, cloneACL(dy.ACL)})
 	}
 	for _, t := range v.Tunnels {
 		n.Tunnels = append(n.Tunnels, &GTunnelIP{t.IP, append([]string{}, t.Attrs...)})
@@ -141,7 +152,17 @@ func (v *GVPN) Text() string {
 			b.WriteString(p + "set security-association lifetime seconds " + e.Lifetime + "\n")
 		}
 	}
-	if len(v.Entries) > 0 {
+	for _, dy := range v.Dyn {
+		printACL(&b, dy.ACL, false)
+		if !tsSeen["TransDyn"] {
+			tsSeen["TransDyn"] = true
+			b.WriteString("crypto ipsec ikev1 transform-set TransDyn esp-aes esp-sha-hmac\n")
+		}
+		fmt.Fprintf(&b, "crypto dynamic-map %s 20 match address %s\n", dy.Name, dy.ACL.Name)
+		fmt.Fprintf(&b, "crypto dynamic-map %s 20 set ikev1 transform-set TransDyn\n", dy.Name)
+		fmt.Fprintf(&b, "crypto map %s %d ipsec-isakmp dynamic %s\n", v.MapName, dy.Seq, dy.Name)
+	}
+	if len(v.Entries)+len(v.Dyn) > 0 {
 		fmt.Fprintf(&b, "crypto map %s interface %s\n", v.MapName, v.Intf)
 	}
 	for _, t := range v.Tunnels {
@@ -242,6 +263,13 @@ func (g *Gen) TargetVPN(intf string) *GVPN {
 			v.Tunnels = append(v.Tunnels, &GTunnelIP{e.Peer, []string{"peer-id-validate nocheck", "ikev2 local-authentication certificate Trustpoint" + fmt.Sprint(1+g.Rng.Intn(3))}})
 		}
 	}
+	if g.Rng.Intn(2) == 0 {
+		for i := 1 + g.Rng.Intn(3); i > 0; i-- {
+			k := len(v.Dyn)
+			v.Dyn = append(v.Dyn, &GDyn{Seq: 65535 - k, Name: fmt.Sprintf("name%d@example.com", k+1),
+				ACL: &GACL{fmt.Sprintf("crypto-%s-%d", intf, 65535-k), []string{g.plainACE()}}})
+		}
+	}
 	for i := g.Rng.Intn(3); i > 0; i-- {
 		n := len(v.RA) + 1
 		r := &GRemoteAccess{CertMap: fmt.Sprintf("ca-map-G%d", n), Seq: 10, Subject: fmt.Sprintf("@g%d.example.com", n),
@@ -287,13 +315,16 @@ func (g *Gen) EditVPN(v *GVPN) string {
 	if v == nil {
 		return ""
 	}
-	switch g.Rng.Intn(15) {
+	switch g.Rng.Intn(17) {
 	case 0: // generated names
 		sfx := fmt.Sprintf("-DRC-%d", g.Rng.Intn(2))
 		ren := func(a *GACL) {
 			if a != nil && !strings.Contains(a.Name, "-DRC-") {
 				a.Name += sfx
 			}
+		}
+		for _, dy := range v.Dyn {
+			ren(dy.ACL)
 		}
 		for _, e := range v.Entries {
 			ren(e.ACL)
@@ -320,6 +351,20 @@ func (g *Gen) EditVPN(v *GVPN) string {
 			}
 		}
 		return "vpn-names-generated"
+	case 15: // dynamic entries missing on device (all, or all but the first)
+		if len(v.Dyn) > 0 {
+			keep := g.Rng.Intn(2)
+			if keep >= len(v.Dyn) {
+				keep = 0
+			}
+			v.Dyn = v.Dyn[:keep]
+			return "crypto-dynamic-missing"
+		}
+	case 16: // extra dynamic entry on device
+		seq := 65000 + g.Rng.Intn(100)
+		v.Dyn = append(v.Dyn, &GDyn{Seq: seq, Name: fmt.Sprintf("old%d@example.com", seq),
+			ACL: &GACL{fmt.Sprintf("crypto-old-%d-DRC-0", seq), []string{g.plainACE()}}})
+		return "crypto-dynamic-extra"
 	case 14: // ikev2 proposal on device has other or fewer sub-commands
 		var cand []*GCrypto
 		for _, e := range v.Entries {
